@@ -180,8 +180,9 @@ CHECKS = {
         "the RNG is a scripted byte stream (zeros after exhaustion, so rejection loops terminate); states = (low, high, first word[, second word]): 8 bits: ALL ranges low <= high x ALL 256 first words x 6 samplers (Uniform::new_inclusive/new + sample, gen_range(a..=b), gen_range(a..b), sample_single_inclusive, sample_single), every second word after a rejected first word for the boundary ranges (deviation bound 1); 16 bits: boundary ranges x ALL 65536 words; 24 bits: selected ranges (sizes 3, 2^23, 2^23+1, 2^24, ...) x ALL 2^24 words; wider: boundary ranges x boundary words; oracle = membership in [low, high] and, wherever all first words are enumerated, the exact number of accepted first words per value is equal and >= 1; Standard / Fill / try_fill_slice = little-endian image of the script (slices of length 0..3)",
         "Every sampled value lies in the requested range and the accepted RNG words map onto the range with equal preimage counts (exactly counted up to 24 bits); Standard sampling and slice fills take every digit from the stream in little-endian order.",
         "DESIGN.md section 5 C20",
-        "no reference model of the sampling algorithm: range membership and exact preimage counting only; bnum built with features numtraits, rand; uniformity is not enumerated above 24 bits",
+        "no reference model of the sampling algorithm: range membership and exact preimage counting only; bnum built with features numtraits, rand; uniformity is not enumerated above 24 bits; quick tier: 10 configurations (every digit type, N = 1 and multi-digit), thorough: all core configurations",
         pkg="vfeat",
+        extra={"bin_thorough": "c20t"},
     ),
 }
 
